@@ -104,7 +104,72 @@ def subspaces(tier):
           for om in ('none', 'first', 'all') if not (om == 'first' and ln == 1)]
     subs.append(('c:file-sequences<=%d' % fl, mf))
     subs.append(('d:branch-distance-programs', list(jprogs(tier))))
+    subs.append(('e:expected-diagnostics', list(xprogs(tier))))
     return subs
+
+
+# (e) EXPECT/ENDEXPECT blocks: an expected error that occurs is neither reported nor counted, one that does not occur is an
+# error at ENDEXPECT, and a fatal error ends the run whether or not its number was listed
+XS = {'ok': ('\tnop', None), 'err': ('\tfoo', 1200), 'rng': ('\tdb 300', 1320), 'perr': ('\terror "e"', 'E'), 'warn': ('\twarning "w"', 'W'),
+      'fatal': ('\tfatal "f"', 'F'), 'noinc': ('\tinclude "nonexist.inc"', 'F')}
+
+
+def xprogs(tier):
+    exps = ([1200], [1320], [10001], [10006], [1200, 1320], [1200, 1200], [1320, 10001])
+    for ex in exps:
+        for ln in (1, 2) if tier == 'quick' else (1, 2, 3):
+            for body in itertools.product(sorted(XS), repeat=ln):
+                for closed in (1, 0):
+                    for opt in ([], ['-Werror']) if closed else ([],):
+                        yield {'k': 'x', 'ex': ex, 'body': list(body), 'closed': closed, 'opt': opt}
+
+
+def ev_x(case):
+    l = ['\tcpu 8080', '\texpect %s' % ','.join(str(x) for x in case['ex'])] + [XS[b][0] for b in case['body']] + (['\tendexpect'] if case['closed'] else []) + ['\tnop']
+    core.put('a.asm', '\n'.join(l) + '\n')
+    o = core.run('asl', ['-n'] + case['opt'] + ['a.asm'], timeout=5)
+    d = '%s | asl -n %s' % (' / '.join(x.strip() for x in l[1:]), ' '.join(case['opt']))
+    ck = core.crashkind(o)
+    if ck:
+        return core.R(False, ck, 'expect/crash/' + ck, '%s on %s' % (ck, d))
+    # model
+    pend = list(case['ex'])
+    e = w = 0
+    fatal = False
+    for b in case['body']:
+        n = XS[b][1]
+        if n is None:
+            continue
+        if n == 'F':
+            fatal = True
+            break
+        if n == 'W':
+            w += 1
+        elif n == 'E':
+            e += 1
+        elif n in pend:
+            pend.remove(n)
+        else:
+            e += 1
+    if not fatal:
+        e += len(pend) if case['closed'] else 1      # one "did not occur" per number left / one "missing ENDEXPECT"
+        if '-Werror' in case['opt']:
+            e, w = e + w, 0
+    heads = [x for x in re.split(r'[\r\n]', o.err.decode('latin-1')) if x.startswith('> > > ')]
+    nw = sum(1 for x in heads if re.search(r'\): ?(\d+: )?warning', x) or re.search(r':\d+: warning', x))
+    ne = len(heads) - nw
+    want_rc = 3 if fatal else 2 if e else 0
+    sig = 'expect/%s'
+    if o.rc != want_rc:
+        return core.R(False, 'rc', sig % ('rc-got%s-want%s' % (o.rc, want_rc)), 'exit status %s, model %s on %s' % (o.rc, want_rc, d))
+    p = core.get('a.p') is not None
+    if p != (want_rc == 0):
+        return core.R(False, 'codefile', sig % 'codefile', 'exit status %s, code file exists=%s on %s' % (o.rc, p, d))
+    if not fatal and (ne, nw) != (e, w):
+        return core.R(False, 'count', sig % 'reported', '%d error(s) and %d warning(s) reported, model %d and %d on %s\n%s' % (ne, nw, e, w, d, '\n'.join(heads[:6])))
+    if fatal and ne < 1:
+        return core.R(False, 'count', sig % 'fatal-silent', 'fatal error not reported on ' + d)
+    return core.R(True, 'x-rc%d' % o.rc, nontrivial=True, states=['x|%d|%d|%d' % (o.rc, e, w)])
 
 
 # (d) programs whose branch errors are "questionable" (the label behind them moves in the same pass): whatever the assembler
@@ -181,6 +246,8 @@ def evaluate(case):
         return ev_count(case)
     if case['k'] == 'j':
         return ev_j(case)
+    if case['k'] == 'x':
+        return ev_x(case)
     return ev_files(case)
 
 
